@@ -10,12 +10,13 @@ WIDTH_BOUND = 1 << 48   # no string of 2^48 columns exists in a process
 
 
 class Contracts:
-    def __init__(self, fns, default_pure=False, extra_inline=(), fixed=None):
+    def __init__(self, fns, default_pure=False, extra_inline=(), fixed=None, effects_inline=()):
         self.fns = fns
         self.used = {}
         self.default_pure = default_pure
         self.extra_inline = tuple(extra_inline)
         self.fixed = dict(fixed or {})   # callee regex -> concrete value: the scenario under which a fragment is explored
+        self.effects_inline = tuple(effects_inline)   # callees whose MIR is executed for its panic/assert edges; result stays opaque
         self.table = [
             (r"^longest_filter$|^Arg::is_positional$|^builder::arg::Arg::is_positional$", self.inline, "longest_filter, Arg::is_positional: INLINED from their own MIR (not a contract)"),
             # (regex on callee text, handler, description)
@@ -40,6 +41,11 @@ class Contracts:
             if re.search(rx, callee):
                 self.used[f"scenario: {callee} returns {val[1]}"] = self.used.get(f"scenario: {callee} returns {val[1]}", 0) + 1
                 return lambda ex, c, argv, argkey, ty, pc, _v=val: _v
+        for rx in self.effects_inline:
+            if re.search(rx, callee):
+                d = "executed from its own MIR for panic/overflow edges (result opaque): " + callee
+                self.used[d] = self.used.get(d, 0) + 1
+                return self.inline_effects
         for rx in self.extra_inline:
             if re.search(rx, callee):
                 self.used["INLINED from its own MIR: " + callee] = self.used.get("INLINED from its own MIR: " + callee, 0) + 1
@@ -57,6 +63,22 @@ class Contracts:
             self.used[d] = self.used.get(d, 0) + 1
             return self.pure
         return r
+
+    def inline_effects(self, ex, callee, argv, argkey, ty, pc):
+        from symex import Exec
+        fn = self.fns.get(callee)
+        if fn is None:
+            raise Unsupported("cannot execute (no MIR body): " + callee)
+        if ex.depth > 2:
+            raise Unsupported("inline depth")
+        sub = Exec(ex.ctx, fn.get(), argv, ex.depth + 1)
+        sub.run(havoc_unassigned=False, cut_loops=True)
+        for ob in sub.obligations:
+            ob = dict(ob)
+            ob["pc"] = list(pc) + ob["pc"]
+            ob["via"] = callee
+            ex.obligations.append(ob)
+        return ex.typed_fresh(f"{callee}({argkey})#{len(ex.obligations)}", ty)
 
     def ne(self, ex, callee, argv, argkey, ty, pc):
         eq = ex.typed_fresh(f"{callee[:-4]}::eq({argkey})", "bool")
